@@ -25,6 +25,8 @@ type scenario struct {
 	Family string   `json:"family"`
 	Name   string   `json:"name"`
 	Roles  []string `json:"roles"`
+	// ThoroughOnly scenarios are skipped by the quick tier.
+	ThoroughOnly bool `json:"thorough_only,omitempty"`
 }
 
 var families []family
@@ -50,7 +52,12 @@ func setup(sc scenario, seq *int) sched.Harness { return familyOf(sc.Family).Set
 func allScenarios() []scenario {
 	var out []scenario
 	for _, f := range families {
-		out = append(out, f.Scenarios...)
+		for _, sc := range f.Scenarios {
+			if sc.ThoroughOnly && !ev.Thorough() {
+				continue
+			}
+			out = append(out, sc)
+		}
 	}
 	return out
 }
